@@ -208,6 +208,28 @@ def generate(rng, tier, index):
                              'default="3"/>', "  </sectiontype>",
                              "</schema>"], "extends": None}
         top_lines.append({"import-src": _spell(rng, sch_home, c1)})
+    c1b = None
+    if have_c1 and os.path.dirname(b1) != sch_home and rng.random() < 0.5:
+        # the base schema imports a file of the SAME NAME, spelled the same
+        # way, from its own directory -- another file with other types
+        c1b = os.path.join(os.path.dirname(b1), os.path.basename(c1))
+        if c1b not in files:
+            spelled = rng.choice([
+                {"style": "raw", "rel": os.path.basename(c1)},
+                {"style": "quoted", "rel": os.path.basename(c1)}])
+            # force the top schema's import to the same spelling
+            for k, ln in enumerate(top_lines):
+                if isinstance(ln, dict) and "import-src" in ln \
+                        and os.path.dirname(c1) == sch_home:
+                    top_lines[k] = {"import-src": dict(spelled)}
+            files[c1b] = {"xml": ["<schema>", '  <sectiontype name="ctb">',
+                                  '    <key name="cvb" datatype="integer" '
+                                  'default="4"/>', "  </sectiontype>",
+                                  "</schema>"], "extends": None}
+            files[b1]["xml"].insert(1, {"import-src": dict(spelled)})
+            types.append("ctb")
+        else:
+            c1b = None
     top_lines += ['  <multikey name="k" datatype="string"/>',
                   '  <multisection type="st" name="*" attribute="s"/>']
     if have_b2:
@@ -219,7 +241,7 @@ def generate(rng, tier, index):
     top_lines.append("</schema>")
     files[sch["top"]] = {"xml": top_lines,
                          "extends": _spell(rng, sch_home, b1)}
-    sch_files = [p for p in (sch["top"], b1, b2, c1) if p]
+    sch_files = [p for p in (sch["top"], b1, b2, c1, c1b) if p]
     # ---- decoys ------------------------------------------------------------------
     cwd = rng.choice(dirs + dirs[1:4] + ["/"])
     targets = [(p, "conf") for p in cfg_order[1:]] + \
